@@ -68,6 +68,7 @@ def check(run, project):
     from .shared import discarded_generators
     discarded_generators(run, project, "W12")
     w14(run, roles)
+    w15(run, roles)
     # W13: every member of a named range (handle ranges: the last PCR, the last NV index ...) is a valid value - a well-formed
     # encoding that carries it must decode in strict mode: the membership / member-construction semantics of NamedRange (C04-V4)
     from . import namedrange
@@ -940,6 +941,34 @@ def w11(run, roles):
                "size-prefixed structure is decoded as the wrong kind (or not at all)", module=mod, node=p.node or fn, func=fn.name,
                construct="process_tpm2b payload kind")
     run.require(n >= 3, f"W11: only {n} completing paths of process_tpm2b")
+
+
+def w15(run, roles):
+    """the byte pump creates the processor from its own arguments: the requested type, the root path, the command code, the
+    encryption flag and the mode all reach the dispatcher (a dropped one falls back to the dispatcher's default: a Response
+    is decoded without its command, an encrypted parameter area as plain, warn mode as strict)"""
+    pump, disp = roles.pump, roles.dispatcher
+    calls = [c for c in walk_no_nested(pump) if isinstance(c, ast.Call) and call_name(c) == disp.name]
+    run.require(len(calls) == 1, f"W15: the pump creates {len(calls)} processors")
+    c = calls[0]
+    dpar = [a.arg for a in disp.args.args]
+    ppar = [a.arg for a in pump.args.args]
+    got = {dpar[i]: norm(a) for i, a in enumerate(c.args) if i < len(dpar)}
+    got.update({k.arg: norm(k.value) for k in c.keywords if k.arg})
+    V = FnView(roles.mod, pump)
+    for name in ("command_code", "parameter_encryption", "abort_on_error"):
+        if name in dpar and name in ppar:
+            run.ob("W15", got.get(name) == name, f"pump -> dispatcher: {name} forwarded",
+                   f"the pump creates the processor with {name}={got.get(name, '<dispatcher default>')}: its own `{name}` argument "
+                   "does not reach the decoder", module=roles.mod, node=c, func=pump.name, construct=f"processor {name}")
+    tp = dpar[0]
+    run.ob("W15", got.get(tp) == ppar[0], "pump -> dispatcher: the requested type",
+           f"the processor is created for `{got.get(tp)}`, not for the pump's `{ppar[0]}`", module=roles.mod, node=c, func=pump.name,
+           construct="processor type")
+    pv = got.get("path")
+    ok = pv is not None and ("root_path" in pv or any(r[0] == "expr" and "root_path" in norm(r[1]) for r in V.defs_at(c, pv)))
+    run.ob("W15", ok, "pump -> dispatcher: the root path", f"the processor's path is `{pv}`: not the pump's root path", module=roles.mod,
+           node=c, func=pump.name, construct="processor path")
 
 
 def w14(run, roles):
